@@ -2,16 +2,20 @@
   C13 — property theorems (table cells form a consistent grid).  Statements and proofs only;
   helper lemmas and the glue definitions `columnTracks`, `ModelColumns` are in WR/C13/Lemmas.lean.
 
-  What is proved (unbounded: every list of column widths, every span pattern, every spacing):
+  What is proved (unbounded: every list of column widths / rows, every span pattern, every spacing):
     * `positions_consistent`  the column clauses of GridConsistent hold exactly (ε = 0) for the geometry
                               the model computes from ANY column widths (fixed or auto algorithm)
+    * `rows_consistent`       the row clauses of GridConsistent hold exactly for the row pass of one row
+                              group: shared top / bottom edges, each cell = its rows + inner spacing,
+                              rows chained by the spacing and filling the group, no negative row height
     * `fixed_sum`             fixedTableLayout: Σ columns + spacing·(n+1) = table width ≥ specified width
-    * `fixed_nonneg_partial`  fixedTableLayout: no negative column, under the hypothesis `FirstRowFits`
-    * `fixed_negative_witness` the hypothesis is needed: a concrete table gets a negative column (replayed
-                              against the real code: known finding KF13-1)
+    * `fixed_nonneg`          fixedTableLayout: no negative column (all inputs; col widths ≥ 0 as the
+                              validator guarantees)
     * `judge_iff`             the judge the harness runs on the implementation's numbers decides GridConsistent
-  NOT proved: the row clauses for `rowPass` (they are false on the current code: `rowspan_short_witness`),
-  anything about the auto algorithm (judged only).
+  Regression examples (formerly negation witnesses, fixed in /repo 61a7e7e and 44a852f):
+    `fixed_clamp_example`, `rowspan_short_example`.
+  NOT proved: anything about the auto algorithm (judged only); baseline alignment is an input of the
+  row model (border heights after content layout and baseline padding).
 -/
 import WR.C13.Lemmas
 namespace WR.Props.C13
@@ -98,36 +102,57 @@ theorem fixed_sum (i : FixedIn) (hn : i.numColumns ≠ 0) :
 example : ∃ i : FixedIn, i.numColumns ≠ 0 ∧ i.cols ≠ [] ∧ i.first ≠ [] :=
   ⟨⟨100, 2, [some 10, none], [(2, some 50), (1, none)]⟩, by decide, by decide, by decide⟩
 
-/-- FULL STATEMENT (false on the current code, see `fixed_negative_witness`):
-      `∀ i, (∀ w ∈ i.cols known, 0 ≤ w) → ∀ w ∈ (fixedLayout i).2, 0 ≤ w`.
-    The hypothesis that makes it true is `FirstRowFits` (WR/C13/Lemmas.lean): whenever a first-row cell
-    with a specified width is processed, its border-box width minus the inner spacing is at least the
-    sum of the already known widths of the columns it spans — the property's "known column widths do
-    not exceed the spanning cell's width". -/
-theorem fixed_nonneg_partial (i : FixedIn) (hcols : ∀ w, some w ∈ i.cols → 0 ≤ w)
-    (hfit : FirstRowFits i.sx 0 i.first (i.cols ++ List.replicate (i.numColumns - i.cols.length) none)) :
+/-- No column gets a negative width, for every input (the col elements' own widths are ≥ 0: negative
+    `width` values are rejected by the validator).  True since the clamp `pr.Max(0, width/len)` of
+    /repo 61a7e7e; `fixed_sum` is unaffected by the clamp because the last step of fixedTableLayout
+    recomputes the table width from the column widths actually assigned. -/
+theorem fixed_nonneg (i : FixedIn) (hcols : ∀ w, some w ∈ i.cols → 0 ≤ w) :
     ∀ w ∈ (fixedLayout i).2, 0 ≤ w :=
-  fixedLayout_nonneg i hcols hfit
+  fixedLayout_nonneg i hcols
 
-example : ∃ i : FixedIn, (∀ w, some w ∈ i.cols → 0 ≤ w) ∧ i.first ≠ [] ∧
-    FirstRowFits i.sx 0 i.first (i.cols ++ List.replicate (i.numColumns - i.cols.length) none) :=
+example : ∃ i : FixedIn, (∀ w, some w ∈ i.cols → 0 ≤ w) ∧ i.first ≠ [] ∧ i.cols ≠ [] :=
   ⟨⟨100, 2, [some 10, none], [(2, some 50), (1, none)]⟩,
-    by intro w hw; simp at hw; subst hw; decide +kernel, by decide, by decide +kernel⟩
+    by intro w hw; simp at hw; subst hw; decide +kernel, by decide, by decide⟩
 
-/-- Negation witness (replayed against the real code, known finding KF13-1): width 300px, spacing 20px,
-    first row = a cell with colspan 2 and border-box width 10px, then a cell of 400px.  The spanning
-    cell's width minus the inner spacing is 10 − 20 < 0: both its columns get the used width −5. -/
-theorem fixed_negative_witness :
-    fixedLayout ⟨300, 20, [], [(2, some 10), (1, some 400)]⟩ = (470, [-5, -5, 400]) := by decide +kernel
+/-- Regression example (was the negation witness of `fixed_nonneg_partial`, known finding KF13-1, in the
+    corpus): width 300px, spacing 20px, first row = a cell with colspan 2 and border-box width 10px,
+    then a cell of 400px.  10 − 20 < 0: the two columns now get 0 (they got −5) and the table is
+    widened to 0 + 0 + 400 + 4·20. -/
+theorem fixed_clamp_example :
+    fixedLayout ⟨300, 20, [], [(2, some 10), (1, some 400)]⟩ = (480, [0, 0, 400]) := by decide +kernel
 
-/-- Row analogue of `positions_consistent`: NOT a theorem of the current code.  Witness (replayed against
-    the real code, known finding KF13-3): row 0 holds a cell A with rowspan 2 and border height 20 and a
-    cell B of height 100, row 1 holds nothing else.  A ends in row 1, whose top (112) is already below
-    A's bottom (30): the row gets height 0, `extra` is 0, and A keeps its height 20 although its two
-    rows cover 100 + 2 + 0. -/
-theorem rowspan_short_witness :
+/-! ## rows -/
+
+/-- For every row group (any number of rows, any cells, any rowspans — those pointing beyond the group
+    never complete and are not claimed —, specified or auto row heights, any border heights, any
+    spacing): the geometry computed by the row pass satisfies the row clauses of `GridConsistent`
+    exactly: cells starting in the same row share their top, cells ending in the same row share their
+    bottom; each cell goes from the top of its first row to the bottom of its last row, i.e. the
+    sum of its rows plus the spacing between them; rows are chained by the spacing from the group's
+    top to the group's bottom; no row height is negative. -/
+theorem rows_consistent (g : Grid) (y : Rat) (rows : List RRow) (hm : ModelRows g y rows) :
+    SharedRowEdges 0 g ∧ (∀ c ∈ g.cells, CellOnRows 0 g c) ∧ (∀ gr ∈ g.groups, GroupRows 0 g.sy gr) ∧
+    (∀ gr ∈ g.groups, ∀ t ∈ gr.rows, 0 ≤ t.size) :=
+  rows_consistent_model g y rows hm
+
+/-- the hypothesis of `rows_consistent` is satisfiable by a non-trivial group: and this IS the former
+    negation witness `rowspan_short_witness` (known finding KF13-3, in the corpus): row 0 holds a cell A
+    with rowspan 2 and border height 20 and a cell B of height 100, row 1 holds nothing else. -/
+theorem rowspan_short_example :
     let o := rowPass 2 10 [⟨none, [⟨1, 2, 20⟩, ⟨2, 1, 100⟩]⟩, ⟨none, []⟩]
-    o.rows = [(10, 100), (112, 0)] ∧ o.cells = [(2, 10, 100), (1, 10, 20)] := by decide +kernel
+    o.rows = [(10, 100), (112, 0)] ∧
+    o.cells = [⟨2, 0, 1, 10, 100⟩, ⟨1, 0, 2, 10, 102⟩] ∧ o.endY = 114 := by decide +kernel
+
+example : ∃ g y rows, ModelRows g y rows ∧ g.cells.length = 2 ∧ rows.length = 2 := by
+  refine ⟨{ rtl := false, tx := 0, ty := 8, tw := 0, th := 0, sx := 0, sy := 2, specW := none, cols := [],
+            groups := [⟨10, 102, [⟨10, 100⟩, ⟨112, 0⟩]⟩],
+            cells := [⟨0, 1, 0, 2, 0, 10, 0, 102, 0, 0, 0⟩, ⟨1, 1, 0, 1, 0, 10, 0, 100, 0, 0, 0⟩] },
+          10, [⟨none, [⟨1, 2, 20⟩, ⟨2, 1, 100⟩]⟩, ⟨none, []⟩], ⟨by decide +kernel, ?_⟩, rfl, rfl⟩
+  intro c hc
+  simp only [List.mem_cons, List.not_mem_nil, or_false] at hc
+  rcases hc with rfl | rfl
+  · exact ⟨⟨1, 0, 2, 10, 102⟩, by decide +kernel, rfl, rfl, rfl, rfl⟩
+  · exact ⟨⟨2, 0, 1, 10, 100⟩, by decide +kernel, rfl, rfl, rfl, rfl⟩
 
 /-! ## the judge -/
 
